@@ -191,17 +191,21 @@ Section HomologyCalc.
     end.
 
   (* ---------- HomologyCalc ---------- *)
+  (* the matrix handed to the second SNF:
+       if r1 > 0 { d2 * s1.pinv().unwrap().submat_cols(r1..n) } else { d2 } *)
+  Definition restrict_d2 (n : nat) (s1 : snf_result R) (d2 : dmat R) : option (dmat R) :=
+    let r1 := sr_rank s1 in
+    if 0 <? r1 then
+      do p1_inv <- sr_pinv s1;                         (* s1.pinv().unwrap() *)
+      do t2 <- submat_cols p1_inv r1 n;
+      dmul d2 t2                                        (* d2': C21' -> C3 *)
+    else Some d2.
+
   (* fn process_snf(d1, d2, with_trans) *)
   Definition process_snf (d1 d2 : dmat R) (with_trans : bool) : option (snf_result R * snf_result R) :=
     let n := nr d1 in
     do s1 <- snf d1 with_trans true false false;
-    let r1 := sr_rank s1 in
-    do d2_dns <-
-      (if 0 <? r1 then
-         do p1_inv <- sr_pinv s1;                       (* s1.pinv().unwrap() *)
-         do t2 <- submat_cols p1_inv r1 n;
-         dmul d2 t2                                      (* d2': C21' -> C3 *)
-       else Some d2);
+    do d2_dns <- restrict_d2 n s1 d2;
     do s2 <- snf d2_dns false false with_trans with_trans;
     Some (s1, s2).
 
